@@ -95,7 +95,7 @@ def literal_cases(rnd, n):
 
 def run(chk, tier, seed):
     rnd = random.Random(seed)
-    n = 700 if tier == "quick" else 10000
+    n = 2500 if tier == "quick" else 10000
     r = vf.tlc("XrStr", "XrStr.cfg", "c18", simulate=n, depth=16, seed=seed, timeout=3000)
     cases = r.cases()
     if not cases or "Error:" in r.out:
